@@ -45,6 +45,14 @@ for d in sorted(glob.glob(src + '/C*/m*')):
     }
     if old.get('caught_by_later'):
         meta['caught_by_later'] = old['caught_by_later']
+    before = os.path.join(d, 'eval_before.json')
+    if os.path.exists(before):
+        rb = json.load(open(before))
+        meta['first_evaluation'] = {'note': 'quick tier of the same checks as they were before this wave was read',
+                                    'caught_by': sorted(rb.get('caught_by', []))}
+        later = sorted(set(meta['caught_by']) - set(rb.get('caught_by', [])))
+        if later:
+            meta['caught_by_later'] = later
     if old.get('history'):
         meta['history'] = old['history']
     json.dump(meta, open(os.path.join(dst, 'meta.json'), 'w'), indent=1, ensure_ascii=False)
